@@ -167,6 +167,28 @@ CHECKS = [
   "design_ref": "DESIGN.md §5 C20",
   "note": _TB + "equality of table contents and parse results across widths is carried by the differential run, not by a theorem (partial).",
   "technique": "Coq proof (modular-arithmetic model of the width guards) + boundary-configuration differential across storage widths"},
+ {"id": "C05",
+  "text": "Coq theorems on the repair-sequence semantics (mirror of lr_upto/lr_cactus/apply_repairs over the LR interpreter) for ALL tables, "
+          "inputs and oracles: a valid repair makes the plain parse of the REPAIRED token string succeed over the next N lexemes or to "
+          "acceptance (valid_repair_plain_parse); after a sequence whose every step did what it says the driver behaves exactly as on the "
+          "repaired input (continue_as_if_applied: same value shape, later errors, outcome); stripping trailing shifts keeps validity; "
+          "Del/Ins commute; search moves are sound under reduce-confluence, and refuted without it (search_sound_refuted: the witness is a "
+          "sequence the implementation reports). The property is decided per reported sequence: valid_repair is evaluated by the extracted "
+          "model on EVERY sequence of every error, and the mirror driver replays the implementation's first sequences and must reproduce "
+          "positions, states and the tree (faulty zero-length leaves for inserts).",
+  "design_ref": "DESIGN.md §5 C05, §5B",
+  "note": _TB + "the bucketed search (dijkstra, merging, ranking) is not mirrored; time budget raised through the guarded hook.",
+  "technique": "Coq proof (repair semantics: validity implies plain continuation; replay equivalence) + per-sequence validity evaluation and driver replay differential"},
+ {"id": "C07",
+  "text": "Coq theorems on the mirror of the recovery driver loop for ALL tables/inputs/oracles of valid repairs: error positions are "
+          "spaced by at least N lexemes and lie within the input (errors_spaced, errors_strictly_increase), their number is bounded by "
+          "|input|/N + 1, the outer loop terminates within 2|input|+3 iterations given that each run of reductions ends, a value is "
+          "returned iff every error is repaired, only the last error may lack repairs, a clean accept equals the plain LR accept. Tie: the "
+          "inequalities evaluated on the implementation's (value, errors) for generated erroneous inputs; first error and clean accept "
+          "cross-checked against the LR interpreter; watchdog for termination on acyclic grammars.",
+  "design_ref": "DESIGN.md §5 C07",
+  "note": _TB + "termination of runs of reductions (no epsilon-reduction cycle in the table) is a hypothesis; on conflict-resolved tables it fails (known findings).",
+  "technique": "Coq proof (progress invariant of the recovery driver by induction over errors) + differential of error lists and outcomes"},
 ]
 
 _PENDING = "check not built yet in this round (work in progress; see DESIGN.md §10 build order)"
